@@ -561,6 +561,41 @@ def index_ts_check():
         fail("index.ts: Pose.from no longer returns parsePose(buffer) unchanged")
 
 
+TYPES_TS = os.path.join(REPO, "src", "js", "pose_format", "src", "types.d.ts")
+# interface of types.d.ts -> (generated schema whose keys must provide its fields, extra keys provided by code)
+TYPED = {"RGBColor": "js_color", "PoseLimb": "js_limb", "PoseHeaderComponentModel": "js_component", "PoseHeaderModel": "js_header"}
+
+
+def types_fields():
+    """types.d.ts: the declared fields of every exported interface (name, optional?) - the typed view applications get"""
+    try:
+        toks = tokenize(open(TYPES_TS).read())
+    except OSError as e:
+        fail("cannot read types.d.ts: %s" % e)
+    out, i = {}, 0
+    while i < len(toks):
+        if text(toks[i:i + 2]) != "export interface" or toks[i + 2].kind != "id" or toks[i + 3].text != "{":
+            fail("types.d.ts: unexpected top-level tokens %s" % text(toks[i:i + 4]))
+        name = toks[i + 2].text
+        e = match_close(toks, i + 3)
+        body, fields, j = toks[i + 4:e], [], 0
+        while j < len(body):
+            if body[j].text == "[":            # index signature  [key: string]: T
+                j = match_close(body, j) + 1
+                fields.append("[]")
+            elif body[j].kind == "id":
+                fields.append(body[j].text + ("?" if body[j + 1].text == "?" else ""))
+                j += 1
+            else:
+                fail("types.d.ts: interface %s: unexpected %s" % (name, body[j].text))
+            while j < len(body) and body[j].text not in (";", ","):
+                j += 1
+            j += 1
+        out[name] = fields
+        i = e + 1
+    return out
+
+
 def stripped_parser():
     """type-strip parser.ts of the tree under test -> js/build/<tag>/parser.js (fail closed)"""
     tag = hashlib.sha1(os.path.abspath(REPO).encode()).hexdigest()[:8]
@@ -579,7 +614,19 @@ def gen():
         src = open(TS).read()
     except OSError as e:
         fail("cannot read parser.ts: %s" % e)
-    out = {"Gen_C05.v": translate_text(src)}
+    gen_text = translate_text(src)
+    tf = types_fields()
+    for iface, schema_name in TYPED.items():
+        if iface not in tf:
+            fail("types.d.ts no longer declares " + iface)
+        m = re.search(r"Definition %s : schema := (.*)\." % schema_name, gen_text)
+        keys = set(re.findall(r'\(K "(\w+)"\)', m.group(1))) if m else set()
+        missing = [f for f in tf[iface] if not f.endswith("?") and f != "[]" and f not in keys]
+        if missing:
+            fail("types.d.ts: %s declares %s, which %s of parser.ts does not produce" % (iface, missing, schema_name))
+    gen_text += "\n(* src/js/pose_format/src/types.d.ts: declared fields of the exported interfaces *)\nDefinition types_fields : list (string * list string) :=\n  [ %s ].\n" % (
+        ";\n    ".join("(%s, [%s])" % (cstr(k), "; ".join(cstr(f) for f in v)) for k, v in tf.items()))
+    out = {"Gen_C05.v": gen_text}
     index_ts_check()
     stripped_parser()
     return out
